@@ -74,14 +74,33 @@ def has_seeded(h):
     return any(c["seed"] != 0 for c in h["cfgs"])
 
 
-def choose_executed(hs, budget, seed):
-    """Which histories also start selene (run steps + audit of every seeded config): all projections are
-    checked for every history; real runs cost a process each, so they get a budget."""
+def execution_order(hs, seed):
+    """Histories that also start selene (run steps + audit of every seeded config), in a seeded random order.
+    All projections are checked for every history; real runs cost a process each, so they get a time budget."""
     idx = [i for i, h in enumerate(hs) if has_seeded(h) or h["runs"]]
-    rnd = random.Random(seed)
-    rnd.shuffle(idx)
-    chosen = set(idx[:budget])
-    return [i in chosen for i in range(len(hs))]
+    random.Random(seed).shuffle(idx)
+    return idx
+
+
+def replay_budgeted(ctx, hs, first, cap, budget_s):
+    import time
+
+    order = execution_order(hs, ctx.seed)[:cap]
+    flags = [False] * len(hs)
+    for i in order[:first]:
+        flags[i] = True
+    t0 = time.time()
+    obs = replay_all(ctx, hs, flags)
+    done, batch = min(first, len(order)), first
+    while done < len(order) and time.time() - t0 < budget_s:
+        nxt = order[done:done + batch]
+        sub = replay_all(ctx, [hs[i] for i in nxt], [True] * len(nxt))
+        for i, o in zip(nxt, sub):
+            obs[i] = o
+            flags[i] = True
+        done += len(nxt)
+        batch *= 2
+    return obs, flags
 
 
 def replay_all(ctx, hs, execute):
@@ -187,9 +206,9 @@ def run(ctx):
     model_check(ctx, deep=not ctx.quick)
     hs, n_exh, n_sim = emit_histories(ctx, simulate=0 if ctx.quick else 40000)
     ctx.log(f"{len(hs)} distinct histories ({n_exh} exhaustive depth 3, {n_sim} simulated depth 6)")
-    execute = choose_executed(hs, ctx.pick(200, 6000), ctx.seed)
-    obs = replay_all(ctx, hs, execute)
-    ctx.log("replayed")
+    obs, execute = replay_budgeted(ctx, hs, first=ctx.pick(150, 1500), cap=ctx.pick(4000, 20000),
+                                   budget_s=ctx.pick(45, 600))
+    ctx.log(f"replayed; selene started for {sum(execute)} histories")
     viol, stats, _ = resolve(hs, obs)
     report(ctx, viol)
     rnd = random.Random(ctx.seed)
